@@ -98,6 +98,7 @@ def required_attrs_table(repo):
 
 def run(repo, rep, tier):
     operation_envelopes_agree(repo, rep, 'C02.R8', 'handlers')
+    regex_termination_rule(repo, rep)
     r1 = rep.rule('C02.R1', 'only pywbem.Error escapes the reply path '
                   '(raises, data-dependent asserts)')
     r3 = rep.rule('C02.R3', 'attribute lookups are covered by check_node')
@@ -342,9 +343,114 @@ def run(repo, rep, tier):
         _cp_cache[k] = res_
         return res_
 
+    def text_evident(expr, func, call, depth=0):
+        """the expression is a str or bytes object: established by an
+        isinstance test at the call, or it comes from the HTTP layer
+        (requests' resp.content, file.read()), followed through locals,
+        tuple-returning repo functions and - for a parameter - all call
+        sites"""
+        if depth > 3:
+            return False
+        if isinstance(expr, ast.Constant):
+            return isinstance(expr.value, (str, bytes))
+        if isinstance(expr, ast.Attribute) and expr.attr in ('content',
+                                                             'text'):
+            return True
+        if isinstance(expr, ast.Call) and \
+                isinstance(expr.func, ast.Attribute) and \
+                expr.func.attr in ('read', 'encode', 'decode', 'toxml',
+                                   'join', 'format', 'strip'):
+            return True
+        if isinstance(expr, ast.Call) and dotted(expr.func) in (
+                '_ensure_bytes', '_ensure_unicode', 'str', 'bytes'):
+            return dotted(expr.func) in ('str', 'bytes') or (
+                bool(expr.args) and text_evident(expr.args[0], func, call,
+                                                 depth + 1))
+        if not isinstance(expr, ast.Name):
+            return False
+        nm = expr.id
+        from ..cfg import stmt_facts as _sf
+        # an isinstance test that holds at the call
+        if call is not None:
+            for st, (fs, _t) in _sf(func.node).items():
+                if isinstance(st, (ast.If, ast.For, ast.While, ast.Try,
+                                   ast.With)):
+                    continue
+                if any(x is call for x in ast.walk(st)):
+                    from ..relfacts import split as _split
+                    for t, pol in fs:
+                        for t2, p2 in _split(t, pol):
+                            if isinstance(t2, ast.Call) and \
+                                    dotted(t2.func) == 'isinstance' and \
+                                    norm(t2.args[0]) == nm and p2:
+                                tt = t2.args[1]
+                                ns = [norm(x) for x in (
+                                    tt.elts if isinstance(tt, ast.Tuple)
+                                    else [tt])]
+                                if set(ns) <= {'str', 'bytes'}:
+                                    return True
+        defs = []
+        for n in walk_no_nested(func.node):
+            if isinstance(n, ast.Assign):
+                for t in n.targets:
+                    if isinstance(t, ast.Name) and t.id == nm:
+                        defs.append(n.value)
+                    elif isinstance(t, ast.Tuple):
+                        for i, el in enumerate(t.elts):
+                            if isinstance(el, ast.Name) and el.id == nm:
+                                defs.append((n.value, i))
+        if defs:
+            for d in defs:
+                if isinstance(d, tuple):
+                    v, i = d
+                    g = None
+                    if isinstance(v, ast.Call):
+                        ts, _how = res.resolve(v, func)
+                        g = ts[0] if len(ts) == 1 else None
+                    if g is None:
+                        return False
+                    rets = [r for r in walk_no_nested(g.node)
+                            if isinstance(r, ast.Return)]
+                    if not rets or not all(
+                            isinstance(r.value, ast.Tuple) and
+                            i < len(r.value.elts) and
+                            text_evident(r.value.elts[i], g, None, depth + 1)
+                            for r in rets):
+                        return False
+                elif not text_evident(d, func, None, depth + 1):
+                    return False
+            return True
+        if nm in func.params:
+            # every caller passes text
+            idx = [p_ for p_ in func.params if p_ not in ('self', 'cls')
+                   ].index(nm)
+            sites = 0
+            for m_ in repo.modules.values():
+                for f2 in m_.all_funcs():
+                    for c2 in walk_no_nested(f2.node):
+                        if isinstance(c2, ast.Call) and \
+                                (dotted(c2.func) or '').split('.')[-1] == \
+                                func.name:
+                            ts, _how = res.resolve(c2, f2)
+                            if func not in ts:
+                                continue
+                            sites += 1
+                            if idx >= len(c2.args) or not text_evident(
+                                    c2.args[idx], f2, c2, depth + 1):
+                                return False
+            return sites > 0
+        return False
+
     def esc_filter(call, func, target, e):
         if target.file in OBSERVER_FILES:
             return False
+        if e.kind == 'stdlib' and e.exc == 'TypeError' and \
+                e.func == target.qualname and \
+                e.construct.startswith('xml.sax.parseString'):
+            # TypeError only for an argument that is neither str nor bytes
+            ps_ = [p_ for p_ in target.params if p_ not in ('self', 'cls')]
+            if call.args and text_evident(call.args[0], func, call):
+                return False
         if func.file == TP and target.name in ('__init__', '__new__') and \
                 (e.func, e.exc) in VALUE_ORIGINS and \
                 pruned_by_constants(call, func, target, e):
@@ -1165,3 +1271,56 @@ def operation_envelopes_agree(repo, rep, rid, which):
                         which == 'handlers' else
                         ' - the statistics / recorders see this operation '
                         'differently from its siblings'))
+
+
+def regex_termination_rule(repo, rep):
+    """C02.R9: parsing a response terminates.  The regular expressions of
+    the client package are applied to server-derived text (key values of
+    reference strings, header values, type names); a pattern of the shape
+    `(x+|y)*` backtracks exponentially on input that almost matches, so an
+    operation whose response carries such a string does not return."""
+    from ..model import fold_const, NotConst, module_env
+    from .. import rx
+    r9 = rep.rule('C02.R9', 'no pattern with an unbounded repeat of an '
+                  'unbounded repeat (exponential backtracking)')
+    FUNCS = ('re.compile', 're.match', 're.search', 're.findall', 're.sub',
+             're.fullmatch', 're.split', 're.finditer')
+    for rel, m in sorted(repo.modules.items()):
+        if not m.relpath.startswith('pywbem/') or '_vendor' in m.relpath:
+            continue
+        env = module_env(repo, m)
+        for node in ast.walk(m.tree):
+            if not (isinstance(node, ast.Call) and
+                    (dotted(node.func) or '') in FUNCS and node.args):
+                continue
+            try:
+                pat = fold_const(node.args[0], env)
+            except (NotConst, TypeError, KeyError, ValueError):
+                continue
+            if not isinstance(pat, str):
+                continue
+            r9.sites += 1
+            try:
+                p = rx.parse(pat)
+            except Exception:               # pylint: disable=broad-except
+                continue
+            amb = rx.ambiguous_repeats(p)
+            r9.ob(not amb, '%s:%s' % (m.relpath, pat[:60]))
+            if amb:
+                rep.finding(r9, m.relpath.split('/')[-1], pat[:80],
+                            'exponential-regex', m.relpath, node.lineno,
+                            'the pattern repeats %s without bound, and that '
+                            'body is itself an unbounded repeat: text that '
+                            'almost matches (e.g. a quoted key value of a '
+                            'few dozen characters with a missing end quote '
+                            'in a reference string of a response) makes the '
+                            'match try every way of splitting it - the '
+                            'operation does not return instead of raising '
+                            'its parse error' % amb[0])
+    if r9.sites < 30:
+        raise AnalysisError('C02.R9: only %d constant patterns found'
+                            % r9.sites)
+    # positive control
+    if not rx.ambiguous_repeats(rx.parse(r'"(?:[^"\\]+|\\.)*"')) or \
+            rx.ambiguous_repeats(rx.parse(r'"(?:[^"\\]|\\.)*"')):
+        raise AnalysisError('C02.R9 recogniser broken')
